@@ -494,7 +494,7 @@ class Executor(object):
                     if ci is not None and self._family(cls) == 'writer':
                         lvl = self.harr(entry, 'F:rbql_engine.RBQLOutputWriter.level', ArrS(INT, INT))
                         out.append(Le(Select(lvl, r), Select(lvl, v.t)))
-                elif name.startswith('L:') or name.startswith('D') or name.startswith('S'):
+                elif name.startswith('L:'):
                     wo = self.ghost_set(st_final, '$wowned')
                     out.append(Select(wo, r))
                 elif name == '$wowned':
@@ -916,12 +916,21 @@ class Executor(object):
         a = fresh('alloc', INT)
         st.heap['$alloc'] = a
         st.pc.append(Ge(a, alloc_old))
+        if '$wowned' in havoced:
+            self.assume_ghost_sets_wf(st)
         return havoced
+
+    def assume_ghost_sets_wf(self, st):
+        """global ghost invariant: the ownership sets contain only allocated references and are disjoint"""
+        r = BVar('gr', INT)
+        srcs, wo = self.ghost_set(st, '$srcs'), self.ghost_set(st, '$wowned')
+        st.pc.append(smt.ForAll([r], Implies(Select(wo, r), And(Gt(r, IntC(0)), Lt(r, st.heap['$alloc']), Not(Select(srcs, r))))))
 
     PURE_METHODS = set(['find', 'startswith', 'endswith', 'count', 'replace', 'strip', 'lstrip', 'rstrip', 'split', 'join',
                         'format', 'lower', 'upper', 'get', 'items', 'keys', 'values', 'span', 'group', 'start', 'end',
                         'match', 'search', 'finditer', 'decode', 'encode'])
-    LIST_MUTATORS = set(['append', 'insert', 'extend', 'reverse', 'remove', 'pop', 'sort', 'add', 'clear', 'update'])
+    LIST_MUTATORS = set(['append', 'insert', 'extend', 'reverse', 'remove', 'pop', 'sort'])
+    SET_MUTATORS = set(['add'])
     PURE_BUILTINS = set(['len', 'isinstance', 'int', 'float', 'str', 'tuple', 'enumerate', 'range', 'xrange', 'min', 'max',
                          'type', 'abs', 'bool', 'ord', 'sorted', 'list', 'set', 'dict', 'sum', 'defaultdict', 'OrderedDict'])
 
@@ -998,15 +1007,45 @@ class Executor(object):
                 for cname, ci in self.reg.classes.items():
                     if self._family(cname) == 'writer':
                         for f in list(ci.fields) + list(ci.ghost):
-                            out.add('F:%s.%s' % (cname, f))
+                            if f not in ('level', 'sorted_iface'):
+                                out.add('F:%s.%s' % (cname, f))
             elif isinstance(p, tuple) and p[0] == 'obj':
                 for root, f, fpt in self.reg.all_fields_of_family(p[1]):
-                    out.add('F:%s.%s' % (root, f))
+                    if f not in ('level', 'sorted_iface'):
+                        out.add('F:%s.%s' % (root, f))
         return out
 
-    def _callee_candidates(self, call):
-        """contracts / program functions a call node may refer to, by name"""
+    def _static_type(self, e, st):
+        if isinstance(e, ast.Name):
+            v = st.locals.get(e.id)
+            return v.pt if v is not None else None
+        if isinstance(e, ast.Attribute):
+            bt = self._static_type(e.value, st)
+            if bt is None:
+                return None
+            if bt.kind == 'opt':
+                bt = bt.args[0]
+            if bt.kind != 'obj':
+                return None
+            home = self.reg.field_home(bt.args[0], e.attr)
+            return home[1] if home else None
+        return None
+
+    def _callee_candidates(self, call, st=None):
+        """contracts / program functions a call node may refer to (receiver type if known, else by name)"""
         f = call.func
+        if st is not None and isinstance(f, ast.Attribute):
+            rt = self._static_type(f.value, st)
+            if rt is not None and rt.kind == 'opt':
+                rt = rt.args[0]
+            if rt is not None and rt.kind == 'obj':
+                from .calls import find_method
+                q = find_method(self, rt.args[0], f.attr)
+                if q is not None:
+                    if q in self.reg.contracts:
+                        return [('contract', self.reg.contracts[q])]
+                    if q in self.program.functions:
+                        return [('func', q, self.program.functions[q][1])]
         if isinstance(f, ast.Name):
             nm = f.id
         elif isinstance(f, ast.Attribute):
@@ -1030,9 +1069,9 @@ class Executor(object):
         for s in stmts:
             for n in ast.walk(s):
                 if isinstance(n, ast.Attribute) and isinstance(n.ctx, ast.Store):
-                    out |= set(k for k in names if k.startswith('F:') and k.endswith('.' + n.attr))
+                    out |= set(k for k in names if k.startswith('F:') and k.endswith('.' + n.attr) and n.attr not in ('level', 'sorted_iface'))
                 elif isinstance(n, ast.Subscript) and isinstance(n.ctx, (ast.Store, ast.Del)):
-                    out |= set(k for k in names if k[0] in 'LDS' and k[1] in ':KN')
+                    out |= set(k for k in names if k.startswith('L:') or k.startswith('D:') or k.startswith('DK:'))
                 elif isinstance(n, ast.AugAssign) and isinstance(n.op, ast.Add):
                     out |= set(k for k in names if k.startswith('L:'))
                 elif isinstance(n, ast.Call):
@@ -1043,11 +1082,14 @@ class Executor(object):
                     if isinstance(f, ast.Attribute) and nm in self.PURE_METHODS:
                         continue
                     if isinstance(f, ast.Attribute) and nm in self.LIST_MUTATORS:
-                        out |= set(k for k in names if k[0] in 'LDS' and k[1] in ':KN')
+                        out |= set(k for k in names if k.startswith('L:'))
+                        continue
+                    if isinstance(f, ast.Attribute) and nm in self.SET_MUTATORS:
+                        out |= set(k for k in names if k.startswith('S:') or k.startswith('SN:'))
                         continue
                     if nm is not None and (nm in BUILTIN_EXC or nm.endswith('Error') or nm.startswith('__H_')):
                         continue
-                    cands = self._callee_candidates(n)
+                    cands = self._callee_candidates(n, st)
                     if not cands or depth > 3:
                         out |= set(k for k in names if k != '$srcs')
                         continue
@@ -1664,14 +1706,9 @@ class Executor(object):
             raise OutOfSubset('slice of %r' % (base.pt,))
         seq = self.list_content(st, base) if k == 'list' else base.t
         ln = Len(seq)
-        lo = IntC(0) if sl.lower is None else self.clampi(self._int(self.ev(sl.lower, st)), ln)
-        hi = ln if sl.upper is None else self.clampi(self._int(self.ev(sl.upper, st)), ln)
-        n = Sub(hi, lo)
-        if sl.lower is None and sl.upper is None:
-            res = seq
-        else:
-            n = Ite(Lt(n, IntC(0)), IntC(0), n) if not (sl.lower is None) else n
-            res = Extract(seq, lo, n)
+        lo_t = None if sl.lower is None else self._int(self.ev(sl.lower, st))
+        hi_t = None if sl.upper is None else self._int(self.ev(sl.upper, st))
+        res = slice_term(self, seq, lo_t, hi_t)
         if k == 'list':
             return self.new_list(st, base.pt.args[0], res)
         return SV(base.pt, res)
@@ -1820,6 +1857,28 @@ class Executor(object):
     def cvalue(self, expr, st, entry, result, loop_entry=None):
         from . import cexpr
         return cexpr.CEval(self, st, entry, result, loop_entry).ev(expr)
+
+
+def slice_term(ex, seq, lo_t, hi_t):
+    """Python seq[lo:hi] (step 1) as an extract; SMT extract yields empty for negative length or an
+    offset beyond the end, which coincides with Python for the cheap cases singled out here."""
+    ln = Len(seq)
+    if lo_t is None and hi_t is None:
+        return seq
+    if lo_t is None:
+        if hi_t.op == 'const' and hi_t.val < 0:
+            return Extract(seq, IntC(0), Add(ln, hi_t))
+        if hi_t.op == 'const':
+            return Extract(seq, IntC(0), hi_t)
+        return Extract(seq, IntC(0), ex.clampi(hi_t, ln))
+    if hi_t is None:
+        if lo_t.op == 'const' and lo_t.val >= 0:
+            return Extract(seq, lo_t, Sub(ln, lo_t))
+        lo = ex.clampi(lo_t, ln)
+        return Extract(seq, lo, Sub(ln, lo))
+    lo = lo_t if (lo_t.op == 'const' and lo_t.val >= 0) else ex.clampi(lo_t, ln)
+    hi = ex.clampi(hi_t, ln)
+    return Extract(seq, lo, Sub(hi, lo))
 
 
 def seq_elem_sv(ex, st, itv, seq, i):
